@@ -168,6 +168,9 @@ func cmdThresholds(args []string) int {
 	specPath := fs.String("spec", "", "thresholds spec json")
 	tier := fs.String("tier", "quick", "tier")
 	evPath := fs.String("evidence", "", "evidence file")
+	fs.Int("workers", 0, "ignored (accepted for interface compatibility)")
+	fs.Bool("v", false, "ignored")
+	fs.String("only", "", "ignored")
 	fs.Parse(args)
 	if t := os.Getenv("VERIF_TIER"); t != "" && !flagSet(fs, "tier") {
 		*tier = t
